@@ -1,5 +1,6 @@
 import Mimium.Proofs.Ring
 import Mimium.Model.Core
+import Mimium.Proofs.CoreFuelDemo
 /-!
 # C02 — call-by-value semantics with per-call-site state
 
@@ -13,6 +14,26 @@ statement, for all programs / streams / run lengths:
 * every site owns its own cell: writing one site never changes another — `C02_cells_independent`;
 * `self` is the function instance's previous return value, zero at first — `C02_call_step`;
 * `now` counts samples from 0 — `C02_now_counts`.
+
+The evaluator takes a **fuel** argument.  The second half of the file proves that the fuel is a proof device and not part
+of the meaning (helper lemmas: `Proofs/CoreFuel.lean`, `CoreFuelMachine.lean`, `CoreFuelIO.lean`), for every program,
+environment, store, state tree, expression / input stream / run length, all 18 constructs, no syntactic restriction:
+
+* `C02_eval_fuel_monotone`, `C02_evalList_fuel_monotone` — a result other than "out of fuel" (a value **or** a genuine
+  error) is the result with every larger fuel;
+* `C02_eval_fuel_independent`, `C02_evalList_fuel_independent` — any two fuels that do not run out agree: the meaning of
+  an expression is a (partial) function of program, environment, store and state only;
+* `C02_init_fuel_monotone`, `C02_step_fuel_monotone`, `C02_run_fuel_monotone`, `C02_run_fuel_independent`,
+  `C02_exec_fuel_independent` — the same for global initialisation, one sample, a run of `k` samples from any machine
+  (`runSamples`: output stream **and** final machine) and a whole execution (`runFrom0` = initialise + run);
+* `C02_runProg_fuel_independent` — the text printed by `drv_prog` (`runProg`, what every program-level check compares
+  the VM / WASM output with) is the same for every sufficient fuel, in particular for the default 200000;
+* `C02_run_prefix` — running `n + m` samples = running `n`, then `m` more from the machine reached (the stream
+  semantics is compositional); `C02_run_length` — a successful run of `k` samples yields exactly `k` frames and
+  advances `now` by `k`.
+
+Not proved here: that a sufficient fuel *exists* (termination — false in general: `fn f(x){f(x)}`), and nothing about
+`Float`.
 
 That the real compiler + VM implement this definition is decided by the correspondence stage (`./check C02`).
 The conversion of the time argument from `f64` (`clampTime`) goes through Lean's opaque `Float` and is tied by
@@ -110,5 +131,144 @@ example :
     let x : Nat → UInt64 := fun k => (k + 10).toUInt64
     ((ringAfter 4 x (fun _ => 2) 5).processD (x 5) 2).1 = x 3 := by
   decide +kernel
+
+/-! ## the fuel is not part of the meaning -/
+
+/-- **Fuel monotonicity** of `eval`: a result other than "out of fuel" — a value or a genuine error — is the result
+with every larger fuel. -/
+theorem C02_eval_fuel_monotone (fuel k : Nat) (P : Prog) (rt : Rt) (env : Env) (e : Expr) (σ : Store) (st : SNode)
+    (r : Res (Val × Store × SNode)) (h : eval fuel P rt env e σ st = r) (hr : r ≠ .error .fuel) :
+    eval (fuel + k) P rt env e σ st = r := by
+  subst h; exact eval_fuel_add P rt fuel k e env σ st hr
+
+/-- the same for the other function of the mutual block (argument / component lists) -/
+theorem C02_evalList_fuel_monotone (fuel k : Nat) (P : Prog) (rt : Rt) (env : Env) (es : List Expr) (σ : Store) (st : SNode)
+    (r : Res (List Val × Store × SNode)) (h : evalList fuel P rt env es σ st = r) (hr : r ≠ .error .fuel) :
+    evalList (fuel + k) P rt env es σ st = r := by
+  subst h; exact evalList_fuel_add P rt fuel k es env σ st hr
+
+/-- **Determinacy of the meaning**: two fuels that both end without "out of fuel" give the same result. -/
+theorem C02_eval_fuel_independent (f₁ f₂ : Nat) (P : Prog) (rt : Rt) (env : Env) (e : Expr) (σ : Store) (st : SNode)
+    (r₁ r₂ : Res (Val × Store × SNode)) (h₁ : eval f₁ P rt env e σ st = r₁) (h₂ : eval f₂ P rt env e σ st = r₂)
+    (hr₁ : r₁ ≠ .error .fuel) (hr₂ : r₂ ≠ .error .fuel) : r₁ = r₂ := by
+  subst h₁ h₂
+  exact FuelLe.determinate (fun f => eval f P rt env e σ st) (fun _ _ h => eval_fuel_le P rt h e env σ st) f₁ f₂ hr₁ hr₂
+
+theorem C02_evalList_fuel_independent (f₁ f₂ : Nat) (P : Prog) (rt : Rt) (env : Env) (es : List Expr) (σ : Store) (st : SNode)
+    (r₁ r₂ : Res (List Val × Store × SNode)) (h₁ : evalList f₁ P rt env es σ st = r₁) (h₂ : evalList f₂ P rt env es σ st = r₂)
+    (hr₁ : r₁ ≠ .error .fuel) (hr₂ : r₂ ≠ .error .fuel) : r₁ = r₂ := by
+  subst h₁ h₂
+  exact FuelLe.determinate (fun f => evalList f P rt env es σ st) (fun _ _ h => evalList_fuel_le P rt h es env σ st) f₁ f₂ hr₁ hr₂
+
+/-- global initialisation (`Machine.init`) -/
+theorem C02_init_fuel_monotone (fuel k : Nat) (P : Prog) (sr : UInt64) (r : Res Machine)
+    (h : Machine.init fuel P sr = r) (hr : r ≠ .error .fuel) : Machine.init (fuel + k) P sr = r := by
+  subst h; exact init_fuel_le P sr (Nat.le_add_right _ _) hr
+
+/-- one sample (`Machine.step`): same output words and same next machine, or the same genuine error -/
+theorem C02_step_fuel_monotone (fuel k : Nat) (P : Prog) (sr : UInt64) (m : Machine) (inputs : List UInt64)
+    (r : Res (List UInt64 × Machine)) (h : Machine.step fuel P sr m inputs = r) (hr : r ≠ .error .fuel) :
+    Machine.step (fuel + k) P sr m inputs = r := by
+  subst h; exact step_fuel_le P sr (Nat.le_add_right _ _) m inputs hr
+
+/-- a run of `n` samples from any machine on any input stream: same output stream and same final machine (or the same
+genuine error) with every larger fuel -/
+theorem C02_run_fuel_monotone (fuel k : Nat) (P : Prog) (sr : UInt64) (inputs : Nat → List UInt64) (n : Nat) (m : Machine)
+    (r : Res (List (List UInt64) × Machine)) (h : runSamples fuel P sr inputs n m = r) (hr : r ≠ .error .fuel) :
+    runSamples (fuel + k) P sr inputs n m = r := by
+  subst h; exact runSamples_fuel_le P sr inputs (Nat.le_add_right _ _) n m hr
+
+/-- **the run is a function of the program and the input stream**: two fuels that do not run out give the same output
+stream and the same final machine -/
+theorem C02_run_fuel_independent (f₁ f₂ : Nat) (P : Prog) (sr : UInt64) (inputs : Nat → List UInt64) (n : Nat) (m : Machine)
+    (r₁ r₂ : Res (List (List UInt64) × Machine)) (h₁ : runSamples f₁ P sr inputs n m = r₁)
+    (h₂ : runSamples f₂ P sr inputs n m = r₂) (hr₁ : r₁ ≠ .error .fuel) (hr₂ : r₂ ≠ .error .fuel) : r₁ = r₂ := by
+  subst h₁ h₂
+  exact FuelLe.determinate (fun f => runSamples f P sr inputs n m)
+    (fun _ _ h => runSamples_fuel_le P sr inputs h n m) f₁ f₂ hr₁ hr₂
+
+/-- a whole execution (initialise the globals, then run `n` samples from sample 0) -/
+theorem C02_exec_fuel_independent (f₁ f₂ : Nat) (P : Prog) (sr : UInt64) (inputs : Nat → List UInt64) (n : Nat)
+    (r₁ r₂ : Res (List (List UInt64) × Machine)) (h₁ : runFrom0 f₁ P sr inputs n = r₁)
+    (h₂ : runFrom0 f₂ P sr inputs n = r₂) (hr₁ : r₁ ≠ .error .fuel) (hr₂ : r₂ ≠ .error .fuel) : r₁ = r₂ := by
+  subst h₁ h₂
+  exact FuelLe.determinate (fun f => runFrom0 f P sr inputs n)
+    (fun _ _ h => runFrom0_fuel_le P sr inputs n h) f₁ f₂ hr₁ hr₂
+
+/-- what `drv_prog` prints (`runProg`, fuel 200000 by default) is what it prints with any other fuel that suffices for
+the whole execution -/
+theorem C02_runProg_fuel_independent (f₁ f₂ : Nat) (P : Prog) (times : Nat) (inputs : List (List UInt64))
+    (h₁ : runFrom0 f₁ P (48000.0 : Float).toBits (streamOf inputs) times ≠ .error .fuel)
+    (h₂ : runFrom0 f₂ P (48000.0 : Float).toBits (streamOf inputs) times ≠ .error .fuel) :
+    runProg P times inputs f₁ = runProg P times inputs f₂ := by
+  rcases Nat.le_total f₁ f₂ with h | h
+  · exact (runProg_fuel_le P times inputs h h₁).symm
+  · exact runProg_fuel_le P times inputs h h₂
+
+/-- **the stream semantics is compositional**: running `n + m` samples is running `n` samples and then `m` more from the
+machine reached (errors propagate) -/
+theorem C02_run_prefix (fuel : Nat) (P : Prog) (sr : UInt64) (inputs : Nat → List UInt64) (n m : Nat) (mc : Machine) :
+    runSamples fuel P sr inputs (n + m) mc =
+      match runSamples fuel P sr inputs n mc with
+      | .error e => .error e
+      | .ok (out₁, mc₁) =>
+        match runSamples fuel P sr inputs m mc₁ with
+        | .error e => .error e
+        | .ok (out₂, mc₂) => .ok (out₁ ++ out₂, mc₂) := by
+  rw [runSamples_add]
+  cases runSamples fuel P sr inputs n mc with
+  | error e => rfl
+  | ok r =>
+    obtain ⟨o1, m1⟩ := r
+    simp only [andThen]
+    cases runSamples fuel P sr inputs m m1 with
+    | error e => rfl
+    | ok q => rfl
+
+/-- a successful run of `n` samples yields exactly `n` output frames and advances the sample counter by `n` -/
+theorem C02_run_length (fuel : Nat) (P : Prog) (sr : UInt64) (inputs : Nat → List UInt64) (n : Nat) (mc mc' : Machine)
+    (out : List (List UInt64)) (h : runSamples fuel P sr inputs n mc = .ok (out, mc')) :
+    out.length = n ∧ mc'.t = mc.t + n :=
+  runSamples_length fuel P sr inputs n mc mc' out h
+
+/-! ### non-vacuity: a concrete program with a global, a stateful function (`mem`, `self`) called at two sites, a closure
+capturing a parameter, and a `mem` in `dsp`; three samples on the input stream 5, 6, 7.  Fuel 11 runs out, fuel 12
+succeeds, and (by the theorems above, instantiated) every fuel `12 + k` gives the same stream; fuel 62 is also
+evaluated directly.  No float arithmetic: the kernel evaluates the model itself (`decide +kernel`). -/
+theorem C02_fuel_witness_runs_out : isFuel (runFrom0 11 fuelDemo 0 fuelDemoIn 3) = true := by decide +kernel
+theorem C02_fuel_witness_succeeds : outOf (runFrom0 12 fuelDemo 0 fuelDemoIn 3) = some fuelDemoOut := by decide +kernel
+theorem C02_fuel_witness_plus50 : outOf (runFrom0 62 fuelDemo 0 fuelDemoIn 3) = some fuelDemoOut := by decide +kernel
+
+/-- the hypotheses of the machine-level theorems are satisfiable, and the theorems say something: every fuel ≥ 12 -/
+theorem C02_fuel_witness_all_larger (k : Nat) : outOf (runFrom0 (12 + k) fuelDemo 0 fuelDemoIn 3) = some fuelDemoOut := by
+  have h12 : isFuel (runFrom0 12 fuelDemo 0 fuelDemoIn 3) = false := by decide +kernel
+  have hne : runFrom0 12 fuelDemo 0 fuelDemoIn 3 ≠ .error .fuel := by
+    intro he; rw [he] at h12; simp [isFuel] at h12
+  rw [runFrom0_fuel_le fuelDemo 0 fuelDemoIn 3 (Nat.le_add_right 12 k) hne]
+  decide +kernel
+
+/-- … and at the level of `eval`, on the expression `(mem(4), (|y| (y, y))(9))` (a `mem`, a closure, tuples):
+fuel 7 runs out, fuel 8 gives the value, hence (theorem) so does every fuel `8 + k` -/
+example : isFuel (eval 7 fuelDemo ⟨0, 0⟩ [] fuelDemoE [] SNode.empty) = true := by decide +kernel
+example : valOf (eval 8 fuelDemo ⟨0, 0⟩ [] fuelDemoE [] SNode.empty) = some ([0, 9, 9], 4) := by decide +kernel
+example : valOf (eval 58 fuelDemo ⟨0, 0⟩ [] fuelDemoE [] SNode.empty) = some ([0, 9, 9], 4) := by decide +kernel
+example (k : Nat) : valOf (eval (8 + k) fuelDemo ⟨0, 0⟩ [] fuelDemoE [] SNode.empty) = some ([0, 9, 9], 4) := by
+  have h8 : isFuel (eval 8 fuelDemo ⟨0, 0⟩ [] fuelDemoE [] SNode.empty) = false := by decide +kernel
+  rw [C02_eval_fuel_monotone 8 k fuelDemo ⟨0, 0⟩ [] fuelDemoE [] SNode.empty _ rfl
+    (by intro he; rw [he] at h8; simp [isFuel] at h8)]
+  decide +kernel
+
+/-- a genuine error is as stable as a value: an unbound variable is reported with every fuel ≥ 1 -/
+example (k : Nat) (P : Prog) (rt : Rt) (st : SNode) :
+    eval (1 + k) P rt [] (.var "zz") [] st = .error (.unbound "zz") :=
+  C02_eval_fuel_monotone 1 k P rt [] (.var "zz") [] st _ (by simp [eval, List.lookup]) (by simp)
+
+/-- what `drv_prog` prints for the witness program with its default fuel (200000) is what it prints with fuel 12 -/
+theorem C02_fuel_witness_runProg :
+    runProg fuelDemo 3 [[5], [6], [7]] = runProg fuelDemo 3 [[5], [6], [7]] 12 := by
+  have ne_of {r : Res (List (List UInt64) × Machine)} (h : isFuel r = false) : r ≠ .error .fuel := by
+    intro he; rw [he] at h; simp [isFuel] at h
+  exact C02_runProg_fuel_independent 200000 12 fuelDemo 3 [[5], [6], [7]]
+    (ne_of (by decide +kernel)) (ne_of (by decide +kernel))
 
 end Mimium.Core
